@@ -28,7 +28,7 @@ import PV.Generated.Lex
   * `imaginary_rule_dead_current`: no lexed item ever carries the tag `imaginary`;
   * `lexer_order_current` (`decide` on the regenerated table): no literal rule hides a later
     one except the duplicated `==` entry, the float rule precedes the integer rule, the keyword
-    and `True`/`False` rules precede the identifier rule.
+    and `True\b`/`False\b` rules (word boundary like the keywords) precede the identifier rule.
 -/
 namespace PV.C07
 open PV PV.Syntax
@@ -259,6 +259,11 @@ theorem not_cmp_grouping_cex :
 section lexer
 open PV.Lexer
 
+/-- the regenerated rule table is the table the lexer model was written against (the C06
+obligation `PV.C06.lex_table_current`, restated here: the statements below about the current
+table go through it, so an edited table breaks THIS theorem and nothing else) -/
+theorem lexer_table_current : Generated.lexTable = Lexer.table := by decide
+
 /-- **`lex` partitions the input** (for every rule table): the texts of the lexed items, in
 order and with the whitespace items, concatenate to the input, and no item is empty. -/
 theorem lexer_partitions_input (tbl : LexTable) (cs : List Char) (ls : List Lexed)
@@ -296,19 +301,22 @@ a longer name. -/
 theorem operator_token_current {s : List Char} {tag : String} {bad : Char → Bool}
     (hm : (s, tag, bad) ∈ symTable) (rest : List Char) (hn : nextNot bad rest.head? = true) :
     firstMatch Generated.lexTable Generated.lexTable (s ++ rest) = some (tag, s.length) := by
-  have ht : Generated.lexTable = Lexer.table := by decide
+  have ht : Generated.lexTable = Lexer.table := lexer_table_current
   rw [ht, firstMatch_table]
   exact sym_step hm rest hn
 
 /-- **Rule order of the current table** (`decide` on the regenerated table): the only literal
 rule that hides a later literal rule is the first `==` entry (it hides its own duplicate); the
-float rule comes before the integer rule; the five keyword rules and `True` / `False` come before
+float rule comes before the integer rule; the five keyword rules and `True` / `False` (all seven with a
+word boundary `\b` since the repair of the `Truex` defect) come before
 the identifier rule. -/
 theorem lexer_order_current :
     shadowedIn Generated.lexTable = [("equal", "equal")] ∧
     ruleIndex Generated.lexTable "float" < ruleIndex Generated.lexTable "int" ∧
     (["and", "or", "not", "if", "else", "True", "False"].all fun t =>
-      decide (ruleIndex Generated.lexTable t < ruleIndex Generated.lexTable "identifier")) = true := by
+      decide (ruleIndex Generated.lexTable t < ruleIndex Generated.lexTable "identifier")) = true ∧
+    (["and", "or", "not", "if", "else", "True", "False"].all
+      (hasBoundary Generated.lexTable)) = true := by
   decide
 
 /-- **The `imaginary` rule of the current table never fires**: every form of the `float` rule ends
@@ -318,25 +326,30 @@ inside the float item (`1.5j`, `1j`, `1e5j` are float items with a letter tag, a
 lexed item ever carries the tag `imaginary`. -/
 theorem imaginary_rule_dead_current (cs : List Char) (ls : List Lexed)
     (h : lexRawWith Generated.lexTable cs = .ok ls) : ∀ l ∈ ls, l.1 ≠ "imaginary" := by
-  have ht : Generated.lexTable = Lexer.table := by decide
+  have ht : Generated.lexTable = Lexer.table := lexer_table_current
   rw [ht] at h
   exact lexRaw_no_imaginary h
 
 example : lexRawWith Generated.lexTable "1.5j".toList = .ok [("float", "1.5j".toList)] := by
-  decide +kernel
+  rw [lexer_table_current]; decide +kernel
 
 example : lexWith Generated.lexTable "a**b//c<<d<=e==f" =
     .ok [.ident "a", .sym "**", .ident "b", .sym "//", .ident "c", .sym "<<", .ident "d",
-      .sym "<=", .ident "e", .sym "==", .ident "f"] := by decide +kernel
+      .sym "<=", .ident "e", .sym "==", .ident "f"] := by
+  rw [lexer_table_current]; decide +kernel
 example : lexWith Generated.lexTable "android or x" =
-    .ok [.ident "android", .sym "or", .ident "x"] := by decide +kernel
+    .ok [.ident "android", .sym "or", .ident "x"] := by
+  rw [lexer_table_current]; decide +kernel
 /-- numeric literals shared with Python: value and `repr` are computed by the model -/
 example : lexWith Generated.lexTable "0.1+1e22" =
     .ok [.flt "0.1" 3602879701896397 36028797018963968, .sym "+",
-      .flt "1e+22" 10000000000000000000000 1] := by decide +kernel
+      .flt "1e+22" 10000000000000000000000 1] := by
+  rw [lexer_table_current]; decide +kernel
 /-- `parse("1e400")`: the literal overflows (no claim), `1.5x`: letter tag (ValueError) -/
-example : lexWith Generated.lexTable "1e400" = .error .nonFinite := by decide +kernel
-example : lexWith Generated.lexTable "1.5x" = .error .floatText := by decide +kernel
+example : lexWith Generated.lexTable "1e400" = .error .nonFinite := by
+  rw [lexer_table_current]; decide +kernel
+example : lexWith Generated.lexTable "1.5x" = .error .floatText := by
+  rw [lexer_table_current]; decide +kernel
 
 end lexer
 
